@@ -89,6 +89,11 @@ PROPS = {
         "quick": {"stages": [st("^TestC07Sequential", 600), st("^TestC07Concurrent", 600), st("^TestC07Backpressure", 150)]},
         "thorough": {"stages": [st("^TestC07Sequential", 6000, shards=6), st("^TestC07Concurrent", 6000, shards=6), st("^TestC07Concurrent", 1500, shards=2, race=True), st("^TestC07Backpressure", 1000, shards=2)]},
     },
+    "C15": {
+        "pkg": "core", "level": "exploration",
+        "quick": {"stages": [st("^TestC15Linearizable", 500), st("^TestC15Stress", 60), st("^TestC15", 40, race=True)]},
+        "thorough": {"stages": [st("^TestC15Linearizable", 5000, shards=8), st("^TestC15Stress", 400, shards=4), st("^TestC15", 400, shards=4, race=True)]},
+    },
     "C10": {
         "pkg": "core", "level": "exploration",
         "quick": {"stages": [st("^TestC10", 15000)]},
